@@ -78,6 +78,6 @@ Section SlabSpec.
     (trunc <=? dist) && (dist <=? thick) && (f0 <=? along) && (along <=? total) && foot_inside
     && (mind <=? depth) && (depth <=? maxd).
   Definition fault_member (dist along thick total depth mind maxd : F) (foot_inside : bool) : bool :=
-    (fabs dist <=? thick * fhalf) && (f0 <=? along) && (along <=? total) && foot_inside
+    (fabs dist <=? thick * fhalf) && (f0 <? along) && (along <=? total) && foot_inside
     && (mind <=? depth) && (depth <=? maxd).
 End SlabSpec.
